@@ -118,6 +118,8 @@ class Sym:
         self.frames = []
         self.stack = []
         self.bv = 0            # bound-variable level counter
+        self.nscope = 0
+        self.visited = set()   # def paths whose bodies were evaluated (the unit itself and everything inlined into it)
         self.tries = []        # `?` applied to values that are not rows: reported if the value is otherwise unused
         self.loops = []
 
@@ -129,7 +131,7 @@ class Sym:
         if a.get("neg") and isinstance(v, int):
             v = -v
         if lk == "bytes":
-            return ("lit", "b" + repr(bytes(v)))
+            return ("lit", repr(bytes(v)))
         if lk == "str":
             return ("lit", repr(v))
         if lk == "char":
@@ -403,6 +405,7 @@ class Sym:
         fr = Frame(f, {}, 0)
         self.frames = [fr]
         self.stack = [f["path"]]
+        self.visited.add(f["path"])
         for i, p in enumerate(f["hir"].get("params", [])):
             self._scan_types(p)
             self.bind_pat(p, ("param", i))
@@ -594,6 +597,11 @@ class Sym:
             b1 = self.branch(lambda: self.ev_body(bt[-1], tail))
             b2 = self.branch(lambda: self.ev_body(bf[-1], tail))
             return self.join2(sc, b1, b2, at)
+        # a choice between known constructors: the match distributes over the choice
+        if sc[0] == "ite" and sc[2][0] == "ctor" and sc[3][0] == "ctor" and not any(a[1].get("guard") for a in arms):
+            b1 = self.branch(lambda: self.ev_match_arms(sc[2], arms, at, tail))
+            b2 = self.branch(lambda: self.ev_match_arms(sc[3], arms, at, tail))
+            return self.join2(sc[1], b1, b2, at)
         # a known constructor: select the arm statically (inlined helpers returning Some(..)/Ok(..))
         if sc[0] == "ctor" and not any(a[1].get("guard") for a in arms):
             want = sc[1].split("::")[-1]
@@ -850,6 +858,10 @@ class Sym:
             res = res.replace("::{constructor#0}", "")
             if a.get("rk", "").startswith("Ctor"):
                 return ("ctor", ctor_name(res), ())
+            if a.get("rk") in ("Fn", "AssocFn"):
+                lamv = self.fn_item_value(a, res)
+                if lamv is not None:
+                    return lamv
             if a.get("owner"):
                 return ("path", owner_name(a["owner"], res.split("::")[-1], res))
             cv = self.const_value(res)
@@ -888,7 +900,7 @@ class Sym:
         if k == "cast":
             v = self.ev(n[2])
             t = short_ty(self.ty(a.get("ty", "?")))
-            if v[0] == "lit" and re.match(r"^-?\d+$", v[1]) and re.match(r"^[iu](8|16|32|64|128|size)$", t):
+            if v[0] == "lit" and re.match(r"^\d+$", v[1]) and re.match(r"^[iu](8|16|32|64|128|size)$", t):
                 return v
             return ("cast", t, v)
         if k == "bin":
@@ -961,6 +973,50 @@ class Sym:
         if k == "constblock":
             return ("const",)
         return ("unknown", k)
+
+    def fn_item_value(self, a, res):
+        """a local, inlinable function used as a value (`.map(parse_item)`): the lambda it denotes"""
+        target = a.get("inst") or res
+        if self.frames[-1].subst and (not a.get("inst") or a.get("inst") == res):
+            r = self.resolve_trait_method(res, [self.ty(x) for x in (a.get("gargs") or [])]) if "::" in res else None
+            if r:
+                target = r
+        f = self.c.fn(target)
+        if f is None or not f.get("hir") or self.is_opaque(target) or target in self.stack or self.frames[-1].depth >= MAX_DEPTH:
+            return None
+        params = f["hir"].get("params", [])
+        lvl = self.bv
+        self.bv += 1
+        saved_lty = self.lty
+        gens = f.get("generics") or []
+        ga = [self.ty(x) for x in (a.get("gargs") or [])]
+        subst = dict(self.frames[-1].subst)
+        if len(gens) == len(ga):
+            for g_, t_ in zip(gens, ga):
+                if not g_.startswith("'") and g_ != t_:
+                    subst[g_] = t_
+
+        def run():
+            self.lty = dict(saved_lty)
+            for i, p in enumerate(params):
+                self._scan_types(p)
+                self.bind_pat(p, ("bv", lvl, i))
+            self._scan_types(f["hir"]["body"])
+            self.frames.append(Frame(f, subst, self.frames[-1].depth + 1))
+            self.frames[-1].is_closure = True
+            self.stack.append(f["path"])
+            self.visited.add(f["path"])
+            saved_loops, self.loops = self.loops, []
+            try:
+                return self.ev(f["hir"]["body"], tail=True)
+            finally:
+                self.loops = saved_loops
+                self.frames.pop()
+                self.stack.pop()
+        eff, env, val, div = self.branch(run)
+        self.lty = saved_lty
+        self.bv -= 1
+        return ("lam", lvl, len(params), eff, val if not div else ("never",))
 
     def const_value(self, res):
         cs = getattr(self.c, "consts", None)
@@ -1191,6 +1247,7 @@ class Sym:
         self.loops = []
         self.frames.append(Frame(f, subst, fr.depth + 1))
         self.stack.append(f["path"])
+        self.visited.add(f["path"])
         div = False
         val = ("unit",)
         try:
@@ -1212,14 +1269,25 @@ class Sym:
         exits = self.count_exits(eff)
         propagate = mode == "try" or (tail and returns_result and self.frames[-1].returns_result)
         if exits["ret"] > 0 or (exits["fail"] > 0 and not propagate):
-            # early `return Ok(..)` or failures that the caller does not simply propagate: keep the call opaque
-            self.nop = nop0
-            for k_ in [k_ for k_ in self.ops if k_ > nop0]:
-                del self.ops[k_]
-            self.note("call of %s kept opaque (early exits not propagated by `?`)" % self.stable_name(f))
-            r = self.new_op("call " + self.stable_name(f), vals, at, res="fresh")
-            self._after_mut(args, self.is_mutating(n, args), r)
-            return r
+            # early `return ..` or failures that the caller does not simply propagate: the callee's rows form a scope whose
+            # value is the callee's result (`fail e` inside it yields Err(e), `ret v` yields the value)
+            self.nscope += 1
+            sid = self.nscope
+            if not div:
+                saved = self.cur
+                self.cur = eff
+                self.frames.append(Frame(f, subst, fr.depth + 1))
+                try:
+                    self.emit_return(val, at)
+                finally:
+                    self.frames.pop()
+                    self.cur = saved
+            self.cur.append(("scope", sid, eff, at))
+            for v in vals:
+                tgt = self._lref_target(v)
+                if tgt is not None and tgt in callee_env:
+                    self.env[tgt] = callee_env[tgt]
+            return ("scope", sid)
         self.cur.extend(eff)
         # mutations the callee made through `&mut` arguments that refer to the caller's locals
         for v in vals:
@@ -1299,10 +1367,13 @@ EFFECT_KINDS = {"op", "guard", "if", "match", "loop", "break", "next", "ret", "f
 class Printer:
     """assigns canonical numbers to operations / loops in order of first appearance and renders rows"""
 
-    def __init__(self, sym, num=None):
+    def __init__(self, sym, num=None, select=None):
         self.s = sym
+        self.select = select
         self.opn = {}
         self.loopn = {}
+        self.scopen = {}
+        self.depth = 0
         self.rows = []
         self.pending = []
         self.nlam = 0
@@ -1314,6 +1385,21 @@ class Printer:
             self.opn[i] = len(self.opn) + 1
         return "$%d" % self.opn[i]
 
+    def scopename(self, i):
+        if i not in self.scopen:
+            self.scopen[i] = len(self.scopen) + 1
+        return "try%d" % self.scopen[i]
+
+    def unselected(self, op, pre):
+        """projection: a value produced by a row that is not shown - wire reads are named, local mutations are spelled out"""
+        if op.name.startswith(("read", "socket.", "Buffer<", "move_cursor", "call ", "apply")) or self.depth > 12:
+            return "%s<%s>" % (pre, op.name)
+        self.depth += 1
+        try:
+            return "%s%s(%s)" % (pre, op.name, ", ".join(self.show(x) for x in op.args))
+        finally:
+            self.depth -= 1
+
     def loopname(self, i):
         if i not in self.loopn:
             self.loopn[i] = len(self.loopn) + 1
@@ -1324,8 +1410,12 @@ class Printer:
         if k == "lit":
             return v[1]
         if k == "op":
+            if self.select is not None and not self.select(self.s.ops[v[1]]):
+                return self.unselected(self.s.ops[v[1]], "")
             return self.opname(v[1])
         if k == "st":
+            if self.select is not None and not self.select(self.s.ops[v[1]]):
+                return self.unselected(self.s.ops[v[1]], "~")
             return "~" + self.opname(v[1]) + ("" if not v[2] else "'" * v[2])
         if k == "param":
             return "a%d" % v[1]
@@ -1390,17 +1480,20 @@ class Printer:
             if v[3]:
                 self.nlam += 1
                 nm = "fn%d" % self.nlam
-                inner = Printer(self.s)
-                inner.opn, inner.loopn, inner.nlam, inner.seen_try = self.opn, self.loopn, self.nlam, self.seen_try
+                inner = Printer(self.s, select=self.select)
+                inner.opn, inner.loopn, inner.nlam, inner.seen_try, inner.scopen = self.opn, self.loopn, self.nlam, self.seen_try, self.scopen
                 inner.emit(list(v[3]), self.ctx + [nm])
                 self.nlam = inner.nlam
                 body = inner.show(v[4])
                 self.nlam = inner.nlam
                 self.pending.extend(inner.pending)
                 self.pending.extend(inner.rows)
-                self.pending.append("%s | ret %s" % (" & ".join(self.ctx + [nm]), body))
+                if self.select is None:
+                    self.pending.append("%s | ret %s" % (" & ".join(self.ctx + [nm]), body))
                 return "%s/%d" % (nm, v[2])
             return "|%d| %s" % (v[2], self.show(v[4]))
+        if k == "scope":
+            return self.scopename(v[1])
         if k == "unit":
             return "()"
         if k == "never":
@@ -1411,7 +1504,13 @@ class Printer:
             return "free:%s" % (v[1],)
         return k
 
-    def row(self, ctx, text):
+    def row(self, ctx, text, op=None):
+        if self.select is not None and (op is None or not self.select(op)):
+            del self.pending[:]
+            return
+        self._row(ctx, text)
+
+    def _row(self, ctx, text):
         # rows of closures defined inside `text` were queued while rendering it: they precede the row that uses them
         self.rows.extend(self.pending)
         del self.pending[:]
@@ -1423,8 +1522,10 @@ class Printer:
             self.ctx = ctx
             if k == "op":
                 op = self.s.ops[e[1]]
+                if self.select is not None and not self.select(op):
+                    continue
                 args = ", ".join(self.show(x) for x in op.args)
-                self.row(ctx, "%s = %s(%s)%s" % (self.opname(op.id), op.name, args, "?" if op.tried else ""))
+                self.row(ctx, "%s = %s(%s)%s" % (self.opname(op.id), op.name, args, "?" if op.tried else ""), op)
             elif k == "guard":
                 cond = self.show(e[1])
                 if len(e[2]) == 1 and e[2][0][0] in ("fail", "break", "next") and not (e[2][0][0] != "fail" and e[2][0][2]):
@@ -1459,15 +1560,17 @@ class Printer:
                 self.row(ctx, "set %s := %s" % (self.show(e[1]), self.show(e[2])))
             elif k == "sel":
                 self.row(ctx, "selected")
+            elif k == "scope":
+                self.emit(e[2], ctx + [self.scopename(e[1])])
             self.ctx = ctx
 
     def finish(self):
         """`?` on values that ended up in no row still decide success: list them (order-free)"""
         extra = []
-        for t in self.s.tries:
+        for t in (self.s.tries if self.select is None else []):
             if id(t) not in self.seen_try:
                 p = Printer(self.s)
-                p.opn, p.loopn = dict(self.opn), dict(self.loopn)
+                p.opn, p.loopn, p.scopen = dict(self.opn), dict(self.loopn), dict(self.scopen)
                 extra.append("- | unused-but-checked %s?" % p.show(t[1]))
         self.rows.extend(self.pending)
         del self.pending[:]
